@@ -214,4 +214,104 @@ theorem step_shrink_succeeds {c : Cfg} {s : State} (h : SInv s) {i : Nat} {p : P
     obtain ⟨d, p1⟩ := dp
     simp only [step, hp, hres]
 
+/-! ### locate -/
+
+theorem locate_inPool {s : State} {k i : Nat} {p : Pool} {w : Resv} (h : s.locate k = some (.inPool i p w)) :
+    s.pool i = some p ∧ findSlot k p.resv = some w ∧ w ∈ p.resv := by
+  rcases locate_cases s k with ⟨i', p', r', hloc, hp, hf⟩ | ⟨m, hloc, _⟩ | hloc
+  · rw [hloc] at h
+    injection h with h
+    injection h with h1 h2 h3
+    subst h1; subst h2; subst h3
+    exact ⟨hp, hf, (findSlot_some hf).1⟩
+  · rw [hloc] at h; injection h with h; cases h
+  · rw [hloc] at h; cases h
+
+/-! ### the abstract view: memory object ↦ bytes -/
+
+/-- what the memory object in slot `k` of the pool reads back (`none`: no such reservation) -/
+def view (p : Pool) (k : Nat) : Option (List Byte) :=
+  (findSlot k p.resv).map fun r => readAt p.buf r.off r.size
+
+theorem findSlot_none_of_slots {l l' : List Resv} (h : l'.map (·.slot) = l.map (·.slot)) {k : Nat}
+    (hn : findSlot k l = none) : findSlot k l' = none := by
+  cases hf : findSlot k l' with
+  | none => rfl
+  | some r =>
+    have hm := findSlot_some hf
+    have : k ∈ l'.map (·.slot) := List.mem_map.2 ⟨r, hm.1, hm.2⟩
+    rw [h] at this
+    obtain ⟨x, hx, hs⟩ := List.mem_map.1 this
+    exact absurd hs (findSlot_none hn x hx)
+
+theorem view_eq_of {p p' : Pool} (hc : SameContents p p') (hs : p'.resv.map (·.slot) = p.resv.map (·.slot)) :
+    view p' = view p := by
+  funext k
+  unfold view
+  cases hf : findSlot k p.resv with
+  | none => rw [findSlot_none_of_slots hs hf]; rfl
+  | some r =>
+    obtain ⟨r', hr', _, _, hread⟩ := hc k r hf
+    rw [hr']; simp only [Option.map_some]; rw [hread]
+
+theorem slots_update {s s' : State} {i : Nat} {q p1 : Pool} (hq : s.pool i = some q)
+    (hsl : p1.resv.map (·.slot) = q.resv.map (·.slot))
+    (hpi : s'.pool i = some p1) (hpj : ∀ j, j ≠ i → s'.pool j = s.pool j)
+    {j : Nat} {p p' : Pool} (hp : s.pool j = some p) (hp' : s'.pool j = some p') :
+    p'.resv.map (·.slot) = p.resv.map (·.slot) := by
+  by_cases hji : j = i
+  · subst hji
+    rw [hq] at hp; rw [hpi] at hp'; cases hp; cases hp'; exact hsl
+  · rw [hpj j hji, hp] at hp'; cases hp'; rfl
+
+/-- resize / shrinkToFit / setAlignment keep the set of live memory objects of every pool -/
+theorem step_packing_slots {c : Cfg} (hc : c.Fixed) {s : State} (h : SInv s) (op : Op)
+    (hop : (∃ i n, op = .resize i n) ∨ (∃ i, op = .shrink i) ∨ (∃ i a, op = .align i a))
+    (j : Nat) (p p' : Pool) (hp : s.pool j = some p) (hp' : (step c s op).1.pool j = some p') :
+    p'.resv.map (·.slot) = p.resv.map (·.slot) := by
+  have same : (step c s op).1 = s → p'.resv.map (·.slot) = p.resv.map (·.slot) := by
+    intro e; rw [e, hp] at hp'; cases hp'; rfl
+  have resized : ∀ {i n : Nat} {q p1 : Pool} {d : Dev}, s.pool i = some q → q.resize c s.dev n false = .ok (d, p1) →
+      (step c s op).1 = { s.setPool i (some p1) with dev := d } → p'.resv.map (·.slot) = p.resv.map (·.slot) := by
+    intro i n q p1 d hq hres hst
+    have hsl : p1.resv.map (·.slot) = q.resv.map (·.slot) := by
+      rcases (resize_ok hc (h.pools i q hq).inv hres).2 with he | hr
+      · rw [he.2.2.1]
+      · exact hr.2.slots
+    rw [hst] at hp'
+    rcases pool_index hq with rfl | rfl
+    · exact slots_update hq hsl rfl (by other_pools) hp hp'
+    · exact slots_update hq hsl rfl (by other_pools) hp hp'
+  rcases hop with ⟨i, n, rfl⟩ | ⟨i, rfl⟩ | ⟨i, a, rfl⟩
+  · cases hq : s.pool i with
+    | none => exact same (by simp only [step, hq])
+    | some q =>
+      cases hres : q.resize c s.dev n false with
+      | error e => exact same (by simp only [step, hq, hres]; cases e <;> rfl)
+      | ok dp =>
+        obtain ⟨d, p1⟩ := dp
+        exact resized hq hres (by simp only [step, hq, hres])
+  · cases hq : s.pool i with
+    | none => exact same (by simp only [step, hq])
+    | some q =>
+      cases hres : q.resize c s.dev q.reserved false with
+      | error e => exact same (by simp only [step, hq, hres]; cases e <;> rfl)
+      | ok dp =>
+        obtain ⟨d, p1⟩ := dp
+        exact resized hq hres (by simp only [step, hq, hres])
+  · cases hq : s.pool i with
+    | none => exact same (by simp only [step, hq])
+    | some q =>
+      cases hres : q.setAlignment s.dev a with
+      | error e => exact same (by simp only [step, hq, hres]; cases e <;> rfl)
+      | ok dp =>
+        obtain ⟨d, p1⟩ := dp
+        have hst : (step c s (.align i a)).1 = { s.setPool i (some p1) with dev := d } := by
+          simp only [step, hq, hres]
+        have hsl := (setAlignment_ok (h.pools i q hq).inv hres).2.slots
+        rw [hst] at hp'
+        rcases pool_index hq with rfl | rfl
+        · exact slots_update hq hsl rfl (by other_pools) hp hp'
+        · exact slots_update hq hsl rfl (by other_pools) hp hp'
+
 end Occa.Pool
